@@ -68,6 +68,7 @@ type Timer struct {
 	stopped bool
 	fired   bool
 	armed   bool // an environment thread that will deliver a firing exists
+	fn      func() // time.AfterFunc
 }
 
 //go:norace
@@ -101,6 +102,10 @@ func (t *Timer) arm() {
 		vrt.PointOp(&vrt.Op{Kind: "timer.fire", Obj: id, Write: true, Ready: t.active})
 		t.fired = true
 		t.armed = false
+		if t.fn != nil {
+			t.fn() // time.AfterFunc: f runs in its own goroutine (here: this environment thread)
+			return
+		}
 		select {
 		case t.c <- Time{}:
 		default:
@@ -159,14 +164,9 @@ func AfterFunc(d Duration, f func()) *Timer {
 	if !vrt.Running() {
 		return &Timer{real: time.AfterFunc(d, f)}
 	}
-	t := &Timer{c: make(chan Time, 1)}
-	t.C = t.c
-	id := chanID(t.c)
-	vrt.GoDaemon("afterfunc", func() {
-		vrt.PointOp(&vrt.Op{Kind: "timer.fire", Obj: id, Write: true, Ready: t.active})
-		t.fired = true
-		f()
-	})
+	// (as with the real one, C is nil; Reset after a firing or a Stop arms it again and f runs again)
+	t := &Timer{c: make(chan Time, 1), fn: f}
+	t.arm()
 	return t
 }
 
